@@ -64,9 +64,9 @@ def returned_kind(f, ret, reader):
     return 'maybe-ok'
 
 
-def sticky_rule(res, fx, rule='STICKY', file_re=None):
+def sticky_rule(res, fx, rule='STICKY', file_re=None, floor=8):
     res.rule(rule, 'in every status-returning function that takes a DataUnflattener& and uses a value-returning (sticky) read, each path from such a read to a return that can be OK '
-                   'passes a call of GetStatus() on that reader', floor=8)
+                   'passes a call of GetStatus() on that reader', floor=floor)
     seen = set()
     for f in sorted(fx.funcs.values(), key=lambda f: (f.file, f.line, f.id)):
         if not f.full or not f.blocks or f.rtype() != 'muscle::status_t':
